@@ -402,6 +402,25 @@ CHECKS = {
         assumptions=["schedules are sampled; the race detector reports races on executed paths only"],
         technique="generated concurrent programs under the Go race detector, schedule-independent oracle",
     ),
+    "C17": dict(
+        test="TestC17", level="exploration", shards=16, race=True,
+        tiers=dict(quick=dict(checks=8, steps=30, timeout=900), thorough=dict(checks=300, steps=40, timeout=3400)),
+        rule="(sequential) rapid state-machine histories over 3 symbols x 2 timeframes x 2 attribute groups: create "
+             "(3 schemas, fixed/variable), write (existing year, new year, or first write that creates the bucket), write with "
+             "another schema (must be rejected), destroy, recreate, reopen of the server; after EVERY step the live catalog "
+             "(GatherTimeBucketInfo, ListSymbols tbk and symbol), the */*/*/YYYY.bin files on disk, a fresh "
+             "catalog.NewDirectory on the same root and the model agree, every listed bucket answers an all-time query "
+             "with the model's rows and GetInfo reports the model's schema, unlisted keys do not answer; (concurrent) rapid "
+             "programs of 2-6 goroutines x 4-30 create/write(6 years)/query/list[/destroy] operations on 2-8 keys with the "
+             "background WAL writer, built with the race detector: no panic, no data race, at quiescence live catalog == "
+             "disk == fresh catalog == listing and every listed bucket answers; without destroys every acknowledged write "
+             "is listed and returned; non-trivial = sequential history with a destroy-then-recreate and a new-year write, "
+             "or concurrent program in which a create under symbol S overlaps another goroutine's write to a different "
+             "bucket of S",
+        assumptions=["concurrent schedules are sampled; the race detector reports races on executed paths only",
+                     "wall-clock year of the sandbox is the year DataService.Create gives a new bucket's first file"],
+        technique="model-based stateful property-based testing (rapid state machine) + generated concurrent programs under the Go race detector",
+    ),
     "C18": dict(
         test="TestC18", level="exploration", shards=16, race=True,
         tiers=dict(quick=dict(checks=3, timeout=900), thorough=dict(checks=120, timeout=3400)),
